@@ -9,6 +9,6 @@ CONSTANTS
   Exts = {FALSE, TRUE}
   Ranges = "all"
   EmitMode = "done"
-INVARIANTS Conforms StreamedSamplesComplete
+INVARIANTS Conforms StreamedSamplesComplete NoDuplicateSeries
 ACTION_CONSTRAINT Emit
 CHECK_DEADLOCK FALSE
